@@ -210,6 +210,10 @@ func (g *DependencyGraph) AddProviderDeferred(provider Provider) error {
 		}
 		node.Dependencies = dependencies
 		g.edges[nodeKey] = dependencies
+	} else if exists {
+		// Replacing a provider by one without dependencies: forget the old edges
+		delete(g.edges, nodeKey)
+		node.Dependencies = make([]NodeKey, 0, 4)
 	}
 
 	// Mark caches as dirty (defer degree updates to DetectCycles)
